@@ -21,6 +21,26 @@ use subtle::ConstantTimeEq;
 use super::KeGroup;
 use crate::errors::InternalError;
 
+/// The u-coordinates of the points of order 1, 2, 4 and 8 on Curve25519 and its twist other than
+/// the identity encoding `0` (see RFC 7748, section 7).
+const SMALL_ORDER_U: [[u8; 32]; 4] = [
+    [
+        0x01, 0, 0, 0, 0, 0, 0, 0, 0, 0, 0, 0, 0, 0, 0, 0, 0, 0, 0, 0, 0, 0, 0, 0, 0, 0, 0, 0, 0, 0, 0, 0,
+    ],
+    [
+        0xe0, 0xeb, 0x7a, 0x7c, 0x3b, 0x41, 0xb8, 0xae, 0x16, 0x56, 0xe3, 0xfa, 0xf1, 0x9f, 0xc4, 0x6a,
+        0xda, 0x09, 0x8d, 0xeb, 0x9c, 0x32, 0xb1, 0xfd, 0x86, 0x62, 0x05, 0x16, 0x5f, 0x49, 0xb8, 0x00,
+    ],
+    [
+        0x5f, 0x9c, 0x95, 0xbc, 0xa3, 0x50, 0x8c, 0x24, 0xb1, 0xd0, 0xb1, 0x55, 0x9c, 0x83, 0xef, 0x5b,
+        0x04, 0x44, 0x5c, 0xc4, 0x58, 0x1c, 0x8e, 0x86, 0xd8, 0x22, 0x4e, 0xdd, 0xd0, 0x9f, 0x11, 0x57,
+    ],
+    [
+        0xec, 0xff, 0xff, 0xff, 0xff, 0xff, 0xff, 0xff, 0xff, 0xff, 0xff, 0xff, 0xff, 0xff, 0xff, 0xff,
+        0xff, 0xff, 0xff, 0xff, 0xff, 0xff, 0xff, 0xff, 0xff, 0xff, 0xff, 0xff, 0xff, 0xff, 0xff, 0x7f,
+    ],
+];
+
 /// Implementation for Curve25519.
 pub struct Curve25519;
 
@@ -41,6 +61,9 @@ impl KeGroup for Curve25519 {
             .ok()
             .map(MontgomeryPoint)
             .filter(|pk| pk != &MontgomeryPoint::identity())
+            // Points of small order would force an all-zero Diffie-Hellman output. The comparison is
+            // on field elements, so non-canonical encodings of these points are covered as well.
+            .filter(|pk| !SMALL_ORDER_U.iter().any(|u| pk == &MontgomeryPoint(*u)))
             .ok_or(InternalError::PointError)
     }
 
